@@ -280,6 +280,11 @@ def run_pinned(mod, ctx):
         data = json.loads(Path(path).read_text())
         out = _eval(mod, data['case'], ctx, open_ids)
         n += 1
+        if out.violation is None and out.known:
+            # a regression input of a repaired defect has zero tolerance: it must not even
+            # show a discrepancy that would be counted under an open finding
+            out.fail(f'regression input {os.path.basename(path)} shows a discrepancy again '
+                f'(classified as {out.known[0]}): {out.detail}', 'regress:' + out.known[0])
         if out.violation:
             violations.append(dict(bucket=out.bucket, msg=out.violation, case=data['case'],
                 detail=out.detail, source='pinned:' + os.path.basename(path), path=path))
